@@ -116,7 +116,7 @@ def run(ctx):
     for tag, _ in corpus:
         tags[tag] = tags.get(tag, 0) + 1
     ctx.coverage.update(
-        evaluations=2 * len(cmds) + 1200, distinct_nontrivial=len(set(t for t in texts if len(t.strip()) > 0)),
+        evaluations=4 * len(cmds), distinct_nontrivial=len(set(t for t in texts if len(t.strip()) > 0)),
         rule="texts = hand-written edge cases + rendered valid programs with random layout + line-mutated programs + token soup "
              "from the lexer's alphabet + raw Unicode; each is lexed by Lexer (debug and release) and by the extracted model and all "
              "items compared field by field; distinct = distinct non-blank texts",
@@ -156,8 +156,7 @@ def run(ctx):
                                         why="%s range %s is inconsistent with the text of file %d (line/column of raw %d is %s, of raw %d is %s)"
                                             % (what, mm.group(0), fi, sr, line_col(t, sr), er, line_col(t, er))))
                     break
-    evaluations_extra = 3 * len(stores)
-    ctx.coverage["evaluations"] = ctx.coverage.get("evaluations", 0)
+    ctx.coverage["evaluations"] = ctx.coverage.get("evaluations", 0) + 3 * len(stores)   # parse (impl+model) and diag (impl) per store
     if failing:
         f = failing[0]
         lib.violation(ctx, "position", dict(property="C09", input=f, all_failing=failing[:10],
